@@ -22,7 +22,7 @@
 (***************************************************************************)
 EXTENDS Integers, Sequences, FiniteSets, TLC
 
-RInit == [pc |-> "outer", gen |-> 0, has |-> TRUE, fresh |-> 1, snapO |-> -1, snapI |-> -1,
+RInit == [pc |-> "outer", gen |-> 0, has |-> TRUE, fresh |-> 1, bumps |-> 0, snapO |-> -1, snapI |-> -1,
           outcome |-> "none", sites |-> <<>>]
 
 \* cfg: repair \in {"Never", "On"}, cells (cells remain after the removal), atomic (FLIP_ATOMIC)
@@ -30,7 +30,7 @@ RInit == [pc |-> "outer", gen |-> 0, has |-> TRUE, fresh |-> 1, snapO |-> -1, sn
 \*          "validate": "ok" | "fail";  at "repair": "ok" | "fail"
 RStep(cfg, s, c) ==
   LET log(x) == Append(s.sites, x)
-      dirty  == [s EXCEPT !.gen = s.fresh, !.fresh = @ + 1]
+      dirty  == [s EXCEPT !.gen = s.fresh, !.fresh = @ + 1, !.bumps = @ + 1]   \* every edit bumps the generation; a restore (gen = snapshot) never rewinds it
   IN
   CASE s.pc = "outer" -> [s EXCEPT !.pc = "fast", !.snapO = IF cfg.repair # "Never" THEN s.gen ELSE -1]
     [] s.pc = "fast" ->
@@ -38,11 +38,11 @@ RStep(cfg, s, c) ==
           ELSE IF c = "k1ok" THEN [dirty EXCEPT !.has = FALSE, !.pc = "post",
                                                !.sites = s.sites \o <<"flip.after_insert_cells", "flip.after_wire", "flip.after_remove_cells">>]
           ELSE IF c = "k1wire"
-          THEN (IF cfg.atomic THEN [s EXCEPT !.pc = "done", !.outcome = "Err", !.sites = log("flip.after_insert_cells")]
+          THEN (IF cfg.atomic THEN [s EXCEPT !.pc = "done", !.outcome = "Err", !.sites = log("flip.after_insert_cells"), !.bumps = @ + 1]   \* undone, yet it was an edit
                 ELSE [dirty EXCEPT !.pc = "done", !.outcome = "Err", !.sites = log("flip.after_insert_cells")])
           ELSE \* "k1late": the flip fails after deleting the star; the slow path deletes the bare vertex
                LET sl == s.sites \o <<"flip.after_insert_cells", "flip.after_wire", "flip.after_remove_cells">> IN
-               IF cfg.atomic THEN [s EXCEPT !.pc = "slow", !.sites = sl]
+               IF cfg.atomic THEN [s EXCEPT !.pc = "slow", !.sites = sl, !.bumps = @ + 1]
                ELSE [dirty EXCEPT !.has = FALSE, !.pc = "post", !.sites = sl])
     [] s.pc = "slow" -> [s EXCEPT !.pc = "fill", !.snapI = s.gen]
     [] s.pc \in {"fill", "cells", "vertex", "validate"} ->
